@@ -104,6 +104,56 @@ theorem sortB_eq_iff (a b : List Bytes) : sortB a = sortB b ↔ a.Perm b := by
     exact List.Perm.eq_of_pairwise (fun x y _ _ => bytesLe_antisymm x y) (sortB_sorted a) (sortB_sorted b)
       ((sortB_perm a).trans (h.trans (sortB_perm b).symm))
 
+/-! ### the distinct members of a sorted list: a canonical form of the SET of members -/
+
+theorem dedupS_mem : ∀ (l : List Bytes) (x : Bytes), x ∈ dedupS l ↔ x ∈ l
+  | [], _ => by simp [dedupS]
+  | [_], _ => by simp [dedupS]
+  | a :: b :: r, x => by
+      simp only [dedupS]
+      split
+      · rename_i h
+        have e : a = b := by simpa using h
+        rw [dedupS_mem (b :: r) x]; subst e; simp
+      · rw [List.mem_cons, dedupS_mem (b :: r) x, List.mem_cons (a := x) (b := a)]
+
+theorem dedupS_strict : ∀ (l : List Bytes), l.Pairwise (fun a b => bytesLe a b = true) →
+    (dedupS l).Pairwise (fun a b => bytesLe a b = true ∧ a ≠ b)
+  | [], _ => by simp [dedupS]
+  | [_], _ => by simp [dedupS]
+  | a :: b :: r, h => by
+      simp only [dedupS]
+      split
+      · exact dedupS_strict (b :: r) h.tail
+      · rename_i hab
+        have hne : a ≠ b := by simpa using hab
+        refine List.Pairwise.cons ?_ (dedupS_strict (b :: r) h.tail)
+        intro z hz
+        have hz' : z ∈ b :: r := (dedupS_mem (b :: r) z).mp hz
+        refine ⟨List.rel_of_pairwise_cons h hz', ?_⟩
+        intro e
+        subst e
+        rcases List.mem_cons.mp hz' with e | hz''
+        · exact hne e
+        · have h1 : bytesLe b a = true := List.rel_of_pairwise_cons h.tail hz''
+          have h2 : bytesLe a b = true := List.rel_of_pairwise_cons h List.mem_cons_self
+          exact hne (bytesLe_antisymm a b h2 h1)
+
+/-- sorting and dropping repetitions forgets exactly the order and the multiplicities -/
+theorem dedupS_sortB_eq_iff (a b : List Bytes) : dedupS (sortB a) = dedupS (sortB b) ↔ ∀ x, x ∈ a ↔ x ∈ b := by
+  have mem : ∀ (l : List Bytes) (x : Bytes), x ∈ dedupS (sortB l) ↔ x ∈ l := fun l x => by
+    rw [dedupS_mem]; exact (sortB_perm l).mem_iff
+  constructor
+  · intro h x
+    rw [← mem a x, ← mem b x, h]
+  · intro h
+    have sa := dedupS_strict _ (sortB_sorted a)
+    have sb := dedupS_strict _ (sortB_sorted b)
+    have pm : (dedupS (sortB a)).Perm (dedupS (sortB b)) :=
+      (List.perm_ext_iff_of_nodup (sa.imp (fun h => h.2)) (sb.imp (fun h => h.2))).mpr
+        (fun x => by rw [mem a x, mem b x]; exact h x)
+    exact List.Perm.eq_of_pairwise (fun x y _ _ hxy hyx => bytesLe_antisymm x y hxy.1 hyx.1) sa sb pm
+
 /-- a concatenation of frames determines the frames -/
 theorem flat_inj_of_frames : ∀ (as bs : List Bytes), (∀ a ∈ as, ∃ x, a = frame x) → (∀ b ∈ bs, ∃ y, b = frame y) →
     flat as = flat bs → as = bs
